@@ -696,6 +696,9 @@ class Cell(Numbered_MCNP_Object):
                 if ret.endswith("\n"):
                     return ret + " " * BLANK_SPACE_CONTINUE
                 return ret + "\n" + " " * BLANK_SPACE_CONTINUE
+            # a continuation marker has to stay the last thing on its line
+            if last_line.rstrip().endswith("&"):
+                return ret + "\n" + " " * BLANK_SPACE_CONTINUE
             if not last_line[-1].isspace():
                 return ret + " "
             return ret
@@ -725,4 +728,12 @@ class Cell(Numbered_MCNP_Object):
                         # add trailing space to comment if necessary
                         ret = cleanup_last_line(ret)
                         ret += param.format()
+        # a continuation marker on the last line of data would make the next input a part of this one
+        lines = ret.split("\n")
+        for i, line in reversed(list(enumerate(lines))):
+            if line.strip() and not is_comment(line):
+                if line.rstrip().endswith("&"):
+                    lines[i] = line.rstrip()[:-1]
+                break
+        ret = "\n".join(lines)
         return self.wrap_string_for_mcnp(ret, mcnp_version, True)
